@@ -467,9 +467,9 @@ func c18Embed(s *c18State, version string, ev PDU, room, probes []PDU, q spec.Us
 	// (C) state resolution with the event in one of two state sets.
 	all := append(append([]PDU{}, room...), ev)
 	if c18AuthCycle(s, all) {
-		s.ctx.Class("auth-cycle(kept from the resolvers)")
-		s.ctx.Unjudged("auth_events cycle between sender-chosen event IDs (room versions 1-2): the resolvers' recursive mainline walks would overflow the stack, which is fatal and not observable in-process")
-	} else {
+		s.ctx.Class("auth-cycle(given to the resolvers)")
+	}
+	{
 		s.call("ResolveConflictsNew", func() {
 			_, _ = ResolveConflictsNew(RoomVersion(version), [][]PDU{append([]PDU{}, room...), append([]PDU{}, replaced...)}, append([]PDU{}, all...), q, c18NotRejected)
 		})
